@@ -55,6 +55,7 @@ class Contract:
         self.closed_heap = kw.pop('closed_heap', False)
         self.bounded = kw.pop('bounded', None)
         self.timeout = kw.pop('timeout', None)
+        self.nonlinear = kw.pop('nonlinear', 'native')   # 'abstract': x*y -> MUL(x, y) + instantiated facts
         if kw:
             raise TypeError("unknown contract keys %s for %s" % (sorted(kw), ident))
         if self.self_class is None and '::' in ident:
@@ -97,8 +98,20 @@ def spec(fn):
     body = [s for s in fdef.body if not (isinstance(s, ast.Expr) and isinstance(s.value, ast.Constant))]
     if len(body) != 1 or not isinstance(body[0], ast.Return):
         raise TypeError("spec function %s must be a single return expression" % fn.__name__)
-    SPEC_FUNCS[fn.__name__] = ([a.arg for a in fdef.args.args], body[0].value, fn)
-    return fn
+    from . import specrt
+    specrt.install_vocabulary(fn.__globals__)
+    # the run-time version has lazy implication: implies(a, b) -> ((not a) or b)
+    import copy
+    rt_tree = specrt.LazyImplies().visit(copy.deepcopy(tree))
+    rt_tree.body[0].decorator_list = []
+    ast.fix_missing_locations(rt_tree)
+    code = compile(rt_tree, '<spec %s>' % fn.__name__, 'exec')
+    ns = {}
+    exec(code, fn.__globals__, ns)
+    rt_fn = ns[fn.__name__]
+    SPEC_FUNCS[fn.__name__] = ([a.arg for a in fdef.args.args], body[0].value, rt_fn)
+    fn.__globals__[fn.__name__] = rt_fn
+    return rt_fn
 
 
 def find_by_name(name, cls=None):
